@@ -111,12 +111,22 @@ def rule_commands(rep: Report, repo: Repo) -> None:
               f'produced {sorted(produced)}; handled {sorted(c for c in handled if handled[c])}', site)
     for cmd, w_eff in want.items():
         rep.check(handled.get(cmd) == w_eff, 'C15.COMMANDS', cmd, str(handled.get(cmd)), site, expected=str(w_eff))
-    # skip count positive, taken from the user's argument
-    txt = norm(q)
-    rep.check('count = int(argument, 0)' in txt and 'if count <= 0:' in txt and "return ('skip', count)" in txt, 'C15.COMMANDS', 'skip-count-positive',
-              'count parsed from the argument; non-positive counts re-prompt', f'{BRK}:{q.lineno}')
-    rep.check("if line is None:\n            return ('exit', 0)" in txt.replace('    ' * 3, '        ').replace('                ', '            ') or
-              ("line is None" in txt and "return ('exit', 0)" in txt), 'C15.COMMANDS', 'eof-is-exit', 'EOF on the prompt quits', f'{BRK}:{q.lineno}')
+    # skip count positive, taken from the user's argument: every `return ('skip', N)` is reached only with N > 0 known (facts that
+    # dominate the return, whatever spells them), and N is the integer parsed from the argument
+    from ..excflow import GuardFacts, dominating_guards
+    from ..pyfacts import resolve_names
+    skips = [r for r in ast.walk(q) if isinstance(r, ast.Return) and isinstance(r.value, ast.Tuple) and len(r.value.elts) == 2
+             and isinstance(r.value.elts[0], ast.Constant) and r.value.elts[0].value == 'skip']
+    sk_ok = bool(skips)
+    for r in skips:
+        nexpr = norm(r.value.elts[1])
+        gf = GuardFacts(dominating_guards(r))
+        parsed = norm(resolve_names(q, r.value.elts[1], allow_calls=True))
+        sk_ok = sk_ok and (gf.get(f'{nexpr} > 0') is True or gf.get(f'{nexpr} >= 1') is True) and parsed.startswith('int(argument')
+    rep.check(sk_ok, 'C15.COMMANDS', 'skip-count-positive', 'count parsed from the argument; non-positive counts re-prompt', f'{BRK}:{q.lineno}')
+    # EOF on the prompt quits: the only return that is reached while the read line is known to be None is ('exit', 0)
+    eof_rets = [r for r in ast.walk(q) if isinstance(r, ast.Return) and GuardFacts(dominating_guards(r)).get('line is None') is True]
+    rep.check(bool(eof_rets) and all(norm(r.value) == "('exit', 0)" for r in eof_rets), 'C15.COMMANDS', 'eof-is-exit', 'EOF on the prompt quits', f'{BRK}:{q.lineno}')
     hb = inline_pure_temps(repo.func(BRK, 'handle_breakpoint'))
     ap = [c for c in calls(hb) if dotted(c.func) == 'breakpoint_handler.apply_debug_action']
     qu = [c for c in calls(hb) if dotted(c.func) == 'breakpoint_handler.query_user_for_debug_action']
